@@ -5,7 +5,7 @@ P = {
     "coq_targets": ["Properties/C14.vo", "Run/Eval_C14.vo"],
     "theorems_module": "Properties.C14",
     "theorems": ["C14_order_language", "C14_stagewise_inheritance", "C14_stagewise_inheritance_pinned",
-                 "C14_F1_pinned_refuted", "C14_accepted_only_if_wellformed", "C14_wellformed_accepted", "C14_ruleset_all_or_nothing", "C14_ruleset_one_bad_rejects",
+                 "C14_F1_pinned_refuted", "C14_accepted_only_if_wellformed", "C14_wellformed_accepted", "C14_ruleset_all_or_nothing", "C14_ruleset_one_bad_rejects", "C14_loader_total",
                  "C14_nonvacuous"],
     "streams": [{
         "name": "factory", "pkg": "./internal/rules", "test": "TestVerifC14",
